@@ -151,6 +151,9 @@ func TestEngine(t *testing.T) {
 				line.Sample = plan
 			}
 			out.emit(line)
+			if AbandonProcess {
+				break // a goroutine that never returns was left behind in this process
+			}
 		}
 	case "sweep":
 		out := openOut()
